@@ -379,7 +379,7 @@ static void region_end(long r){
 
 // runs one unit in a forked spine process; the spine emits its own records
 static void run_spine(Spine &s){
-    vf::Outcome o; int fd = -1; double budget = vf::g_deadline > 0 ? std::max(60.0, vf::g_deadline - vf::now() + 120.0) : 3600.0;
+    vf::Outcome o; int fd = -1; double t_start = vf::now(); double budget = vf::g_deadline > 0 ? std::max(60.0, vf::g_deadline - vf::now() + 120.0) : 3600.0;
     if (fork_continue(o, budget, fd)){
         SP = &s; vs::outfd = fd; vs::max_steps = 400000; vs::begin_main(); gs::team_size = s.T; gs::fine_points = s.fine; gs::on_region_begin = region_begin; gs::on_region_end = region_end;
         run_history(*s.h, [&](int si, Ctx &c){ step_done(s, si, c); });
@@ -388,7 +388,7 @@ static void run_spine(Spine &s){
             vf::emit(vf::J().s("t","outcome").s("key", s.h->name + " T=" + std::to_string(s.T) + " | " + a.first + " | " + std::to_string(a.second.traces.size()) + " distinct chunk/critical/thread-order traces | verdicts " + (vd.empty() ? "-" : vd)).i("n", a.second.execs)); }
         bool complete = !s.cut && !vf::past_deadline();
         vf::emit(vf::J().s("t","unit").s("unit", s.unit).i("states", s.points).i("transitions", s.steps).i("execs", s.execs + 1).i("evals", s.execs + 1).i("distinct", (long long) s.classes.size())
-                 .i("regions_in_history", s.spine_regions).i("regions_explored", s.regions_explored).i("regions_in_range", s.regions_seen).i("skipped_after_crashes", s.skipped).i("nested_regions", gs::n_nested).i("criticals", gs::n_crit).i("dynamic_loops", gs::n_dynloops).i("chunks", gs::n_chunks).i("barriers", gs::n_barriers).i("violations", s.nviol).b("complete", complete));
+                 .i("regions_in_history", s.spine_regions).i("regions_explored", s.regions_explored).i("regions_in_range", s.regions_seen).i("skipped_after_crashes", s.skipped).i("nested_regions", gs::n_nested).i("criticals", gs::n_crit).i("dynamic_loops", gs::n_dynloops).i("chunks", gs::n_chunks).i("barriers", gs::n_barriers).i("violations", s.nviol).n("wall_s", std::round(1e3 * (vf::now() - t_start)) / 1e3).b("complete", complete));
         vf::wr(fd, "SPINE-OK\n"); _exit(0);
     }
     if (o.out.find("SPINE-OK") == std::string::npos){
